@@ -511,6 +511,10 @@ def run(ck):
     # ---- (a) direct oracle on real loads ------------------------------------
     files = vlib.corpus_files()
     ck.rng.shuffle(files)
+    # minimised past failures (regression corpus of this property) always run first
+    cdir = os.path.join(vlib.VERIF, "corpus", "C03")
+    if os.path.isdir(cdir):
+        files = sorted(os.path.join(cdir, f) for f in os.listdir(cdir)) + files
     nmut = 3 if quick else 40
     wjobs = [{"kind": "wf", "shard": i, "seed": ck.seed, "nmut": nmut, "harness": wf, "driver": driver,
               "files": files[i::nsh]} for i in range(nsh)]
